@@ -291,12 +291,6 @@ def body(ctx: C.Ctx, proof: C.ProofStatus) -> C.Result:
 
 
 def classify(f: C.Failure, entry: dict) -> bool:
-    case = f.case if isinstance(f.case, dict) else {}
-    if entry.get("classifier") == "dest_note_with_whitespace_only_line":
-        # exactly this finding: the destination page holds a whitespace-only (not empty) line, i.e. an indented blank line inside
-        # one of its notes, and the damage is confined to the destination
-        dest_text = case.get("dest_text") or (case.get("files") or {}).get(case.get("dest"), "")
-        return case.get("kind") in ("dest_lost", "dest_note", "invalid_page", "conserve") and any(l != "" and l.strip() == "" for l in (dest_text or "").split("\n"))
     return False
 
 
